@@ -144,24 +144,24 @@ structure Holds (v : Vec) (xs dl esc : List Id) : Prop where
   dropLog : v.dropLog = dl
   escaped : v.escaped = esc
 
-theorem roomOne_bump (env : Env) (v : Vec) (hk : env.kind = .bump) : ∃ v', reserveOne env v = some v' := by
+theorem roomOne_bump (env : Env) (v : Vec) (hk : env.kind = .bump) (hm : env.maxCap = none) : ∃ v', reserveOne env v = some v' := by
   unfold reserveOne growAmortized
   simp only [hk]
-  split <;> simp
+  split <;> simp [Env.fits, hm]
 
-theorem reserve_bump' (env : Env) (v : Vec) (n : Nat) (hk : env.kind = .bump) : ∃ v', reserve env v n = some v' := by
+theorem reserve_bump' (env : Env) (v : Vec) (n : Nat) (hk : env.kind = .bump) (hm : env.maxCap = none) : ∃ v', reserve env v n = some v' := by
   unfold reserve growAmortized
-  split <;> simp [hk]
+  split <;> simp [hk, Env.fits, hm]
 
 /-- `vec.extend(replace_with)` on a `BumpVec`: every value is pushed -/
-theorem spliceExtendLoop_bump (env : Env) (hk : env.kind = .bump) (src : List Id) :
+theorem spliceExtendLoop_bump (env : Env) (hk : env.kind = .bump) (hm : env.maxCap = none) (src : List Id) :
     ∀ (v : Vec) (xs dl esc : List Id), Holds v xs dl esc →
       ∃ v', spliceExtendLoop env v src = .ok (v', [], false) ∧ Holds v' (xs ++ src) dl esc ∧ v.cap ≤ v'.cap := by
   induction src with
   | nil => intro v xs dl esc h; exact ⟨v, rfl, by simpa using h, Nat.le_refl _⟩
   | cons id src ih =>
     intro v xs dl esc h
-    obtain ⟨v1, hr⟩ := roomOne_bump env v hk
+    obtain ⟨v1, hr⟩ := roomOne_bump env v hk hm
     have ⟨g, hc⟩ := reserveOne_some h.slots h.len hr
     have hpush := push_eq env v xs id h.slots h.len
     have hroom : roomOne env v = true := by simp [roomOne, hr]
@@ -296,7 +296,7 @@ theorem holds_of_slots {v : Vec} {xs : List Id} {k : Nat} (hs : v.slots = I xs +
 
 /-- `Extend::extend` on a `BumpVec`: either the up-front reservation for the CLAIMED length overflows (nothing
     changes, the source is dropped), or every value is pushed -/
-theorem extendIter_bump (env : Env) (hk : env.kind = .bump) (v : Vec) (xs src : List Id) (hint : Nat) (lie : Option Nat)
+theorem extendIter_bump (env : Env) (hk : env.kind = .bump) (hm : env.maxCap = none) (v : Vec) (xs src : List Id) (hint : Nat) (lie : Option Nat)
     (maxCap : Nat) (hs : v.slots = I xs ++ H (v.cap - v.len)) (hl : xs.length = v.len) :
     if capOverflow env maxCap v v.len (spliceLower hint lie src.length) then
       extendIter env v src hint lie maxCap = .ok ⟨dropArgs v src, .panic false, []⟩
@@ -307,9 +307,9 @@ theorem extendIter_bump (env : Env) (hk : env.kind = .bump) (v : Vec) (xs src : 
   by_cases hov : capOverflow env maxCap v v.len (spliceLower hint lie src.length) = true
   · simp [hov]
   · simp only [hov, Bool.false_eq_true, ↓reduceIte]
-    obtain ⟨v1, hr⟩ := reserve_bump' env v (spliceLower hint lie src.length) hk
+    obtain ⟨v1, hr⟩ := reserve_bump' env v (spliceLower hint lie src.length) hk hm
     have ⟨gr, _⟩ := reserve_some hs hl hr
-    obtain ⟨v2, h1, h2, h3⟩ := spliceExtendLoop_bump env hk src v1 xs v.dropLog v.escaped
+    obtain ⟨v2, h1, h2, h3⟩ := spliceExtendLoop_bump env hk hm src v1 xs v.dropLog v.escaped
       ⟨gr.slots, by rw [gr.len]; exact hl, gr.dropLog, gr.escaped⟩
     simp only [hr, h1, dropArgs_nil, Bool.false_eq_true, ↓reduceIte]
     exact ⟨v2, rfl, h2, by have := gr.cap; omega⟩
@@ -347,7 +347,7 @@ theorem take_append_drop_len (k : Nat) (l : List Id) : l.take k ++ l.drop (l.tak
     ends up holding `head ++ written ++ tail` where `written` is all of `src` — or, when a reservation for the
     number of items the source CLAIMS overflows, the prefix written before that panic; the rest of `src` is
     dropped with `replace_with`.  For every size hint, honest or lying. -/
-theorem spliceFinish_bump (env : Env) (hk : env.kind = .bump) {v : Vec} {d : DrainSt} {head tail dl esc : List Id} {g spare : Nat}
+theorem spliceFinish_bump (env : Env) (hk : env.kind = .bump) (hm : env.maxCap = none) {v : Vec} {d : DrainSt} {head tail dl esc : List Id} {g spare : Nat}
     (src : List Id) (hint : Nat) (lie : Option Nat) (maxCap : Nat)
     (hs : v.slots = I head ++ H g ++ I tail ++ H spare) (hlen : v.len = head.length) (hpe : d.ptr = d.end_)
     (hts : d.tailStart = head.length + g) (htl : d.tailLen = tail.length) (hdl : v.dropLog = dl) (hesc : v.escaped = esc) :
@@ -383,9 +383,9 @@ theorem spliceFinish_bump (env : Env) (hk : env.kind = .bump) {v : Vec} {d : Dra
       simp only [hov', Bool.false_eq_true, ↓reduceIte]
       have hshape : v.slots = I head ++ H (v.cap - v.len) := by
         rw [hs, hcap, hlen]; simp only [I_nil, List.append_nil, List.append_assoc]; rw [← H_add]; congr 2; simp; omega
-      obtain ⟨v1, hr⟩ := reserve_bump' env v (spliceLower hint lie src.length) hk
+      obtain ⟨v1, hr⟩ := reserve_bump' env v (spliceLower hint lie src.length) hk hm
       have ⟨gr, _⟩ := reserve_some hshape hlen.symm hr
-      obtain ⟨v2, h1, h2, h3⟩ := spliceExtendLoop_bump env hk src v1 head dl esc
+      obtain ⟨v2, h1, h2, h3⟩ := spliceExtendLoop_bump env hk hm src v1 head dl esc
         ⟨gr.slots, by rw [gr.len]; exact hlen.symm, by rw [gr.dropLog, hdl], by rw [gr.escaped, hesc]⟩
       simp only [hr, h1]
       have hs2 : v2.slots = I (head ++ src) ++ H (v2.cap - v2.len) ++ I [] ++ [] := by simpa using h2.slots
@@ -560,7 +560,7 @@ theorem spliceDrainDrop_seg_ex (bombs : List Id) (unw : Bool) {v : Vec} {d : Dra
     under- or OVER-reporting, up to "capacity overflow") and pull script, with any set of panicking
     destructors: no fault, and the vector afterwards holds exactly what the list-level `spliceSpec` says,
     with its drops and hand-outs -/
-theorem splice_holds (env : Env) (hk : env.kind = .bump) (v : Vec) (xs : List Id) (start end_ : Nat) (src : List Id)
+theorem splice_holds (env : Env) (hk : env.kind = .bump) (hm : env.maxCap = none) (v : Vec) (xs : List Id) (start end_ : Nat) (src : List Id)
     (hint : Nat) (lie : Option Nat) (maxCap : Nat) (script : List Pull)
     (hs : v.slots = I xs ++ H (v.cap - v.len)) (hl : xs.length = v.len) :
     ∃ v', splice env v start end_ src hint lie maxCap script =
@@ -646,7 +646,7 @@ theorem splice_holds (env : Env) (hk : env.kind = .bump) (v : Vec) (xs : List Id
         simp only [List.length_append, length_I, length_H] at h1 h2
         show vr.slots.length = v.cap
         omega
-      obtain ⟨v', e6, h6, c6⟩ := spliceFinish_bump env hk (v := vr) (d := { dr with ptr := dr.end_ }) (dl := v.dropLog ++ u)
+      obtain ⟨v', e6, h6, c6⟩ := spliceFinish_bump env hk hm (v := vr) (d := { dr with ptr := dr.end_ }) (dl := v.dropLog ++ u)
         (esc := v.escaped ++ yielded rs) src hint lie maxCap sr1 (by rw [lr, lp, hhl]) rfl (by simp only; rw [tsr, tsp]; omega)
         (by simp only; rw [tlr, tlp, htl]) (by rw [dlr, dlp, hpre]) (by rw [escr, escp])
       have hcaps : capsOf env vr hint lie maxCap = capsOf env v hint lie maxCap := by simp [capsOf, hc]
